@@ -694,7 +694,12 @@ def r_default_nullable(m, rnd):
     for fpath, d, f in fields_of(m, ('struct',)):
         if f.type.nullable and f.type.kind == 'prim' and f.type.name in ('String', 'Int32', 'Int64', 'UInt32', 'UInt64', 'Boolean'):
             def apply(m2, fpath=fpath, f=f):
-                v = {'String': _str_for(f.type), 'Boolean': True}.get(f.type.name, _int_for(f.type))
+                if f.type.name == 'String':
+                    v = _str_for(f.type)
+                elif f.type.name == 'Boolean':
+                    v = True
+                else:
+                    v = _int_for(f.type)
                 getf(m2, fpath).default = ('lit', v)
             yield 'direct' + ('+patched' if fpath[1] == 'patch_fields' else ''), apply
 
